@@ -917,7 +917,13 @@ func equalContainers(left, right Value, seen map[comparison]bool) bool {
 func Contains(haystack Value, needle Value) (bool, error) {
 	haystack = withoutSafe(haystack)
 	if reflect.ValueOf(haystack).Kind() == reflect.String {
-		// In a string, "in" is the substring test.
+		// In a string, "in" is the substring test. Only a string or a number
+		// can be part of a string: null, a boolean or a list coerce to the
+		// empty string, but they are not in every string.
+		needle = withoutSafe(needle)
+		if _, boolean := needle.(Boolean); needle == nil || boolean || reflect.ValueOf(needle).Kind() == reflect.Bool || isContainer(needle) || isOpaque(needle) {
+			return false, nil
+		}
 		return strings.Contains(CoerceString(haystack), CoerceString(needle)), nil
 	}
 	res := false
